@@ -219,10 +219,20 @@ def _match(r, p):
             for h in n.handlers:
                 ht = norm(h.type) if h.type is not None else "<bare>"
                 kk = "%s:handler:%s" % (vh.key, ht)
-                if ht in ("IndexError", "AttributeError"):
-                    # must return False (no tag), never True
+                names = [norm(e) for e in h.type.elts] if isinstance(h.type, ast.Tuple) else [ht]
+                if set(names) <= {"IndexError", "AttributeError"}:
+                    # must answer False (no tag), never True: every return reachable from the handler - inside it, or the
+                    # statements after the try when the handler falls through - returns the constant False
                     rv = [x for x in ast.walk(h) if isinstance(x, ast.Return)]
-                    if rv and all(isinstance(x.value, ast.Constant) and x.value.value is False for x in rv):
+                    falls = not (h.body and isinstance(h.body[-1], (ast.Return, ast.Raise)))
+                    after = []
+                    if falls:
+                        par = getattr(n, "_parent", None)
+                        seq = getattr(par, "body", [])
+                        if n in seq:
+                            after = [x for st in seq[seq.index(n) + 1 :] for x in ast.walk(st) if isinstance(x, ast.Return)]
+                    allr = rv + after
+                    if allr and all(isinstance(x.value, ast.Constant) and x.value.value is False for x in allr):
                         r.ok("C11.match", kk, "narrow handler, answers 'not tagged'")
                     else:
                         r.fail("C11.match", kk, "handler does not answer False", vh.loc(h))
